@@ -4,6 +4,8 @@ L6 (c): SPEC-side vocabulary for statements about edit histories (used by C08).
 Core Lean only. Nothing here is used by the executable model or the driver.
 -/
 namespace Nima
+-- name tokens are compared by spelling in this file (see `NameCmp` in Model/Edit.lean)
+attribute [local instance] NameCmp.spelled
 
 /-- `d'` is `d` up to the allocation counter (`next` is not document state: it only names the
     identities handed out to objects created later). -/
